@@ -1,4 +1,5 @@
 import GoomVerif.Lemmas.C14L
+import GoomVerif.Lemmas.C14HL
 /-!
 # C14 — a patch touches only the target's entry bytes and leaves pages read+execute
 
@@ -382,5 +383,55 @@ example : ¬ InRange 0x401fe0#64 (min 13 32) 0x402000#64 := by
   have := congrArg BitVec.toNat e
   simp only [BitVec.toNat_add, BitVec.toNat_ofNat] at this
   omega
+
+/-! ## histories: any sequence of Patch / Apply / Unpatch / Restore / Unpatch(fn) / UnpatchAll over several targets,
+      with the environment unmapping pages in between (Model/MemHist.lean)
+
+`LOK L`: every 13-byte entry lies in one page (function entries are 16/32-byte aligned).  `GOK L h`: the guards the caller
+holds belong to their targets and hold 13+13 bytes — true of the empty initial state and preserved (`hist_guards`). -/
+
+open C14HL in
+/-- **only entry bytes, after any history**: whatever sequence of installs, removals, re-installs, `Restore`s and
+    `UnpatchAll`s ran — including operations that panicked because a target's memory had been unmapped — a byte outside
+    the 13 entry bytes of the targets is unchanged. -/
+theorem hist_frame (L : Layout) (hL : LOK L) (h : HState) (hG : GOK L h) (ops : List HOp) (q : Addr)
+    (hq : ∀ i j, j < 13 → q ≠ L.org i + BitVec.ofNat 64 j) : (hrun L h ops).m.mem q = h.m.mem q :=
+  (hrun_rel L hL ops h hG).1.2 q hq
+
+open C14HL in
+/-- **no image page left writable, after any history**: for any set `img` of pages none of which was writable before,
+    none is writable afterwards — on every path, also when an operation in the middle (e.g. `UnpatchAll` reaching a target
+    in unmapped memory) panicked, with or without a W^X policy.  Every page ends with the protection it had, or r-x, or
+    unmapped by the environment. -/
+theorem hist_no_image_page_left_writable (L : Layout) (hL : LOK L) (h : HState) (hG : GOK L h) (ops : List HOp)
+    (img : Addr → Prop) (hnw : ∀ p pr, img p → h.m.perm p = some pr → pr.w = false) :
+    ∀ p pr, img p → (hrun L h ops).m.perm p = some pr → pr.w = false := by
+  intro p pr hi hp
+  rcases (hrun_rel L hL ops h hG).1.1 p with e | e | e
+  · rw [e] at hp; exact hnw p pr hi hp
+  · rw [e] at hp; cases hp; rfl
+  · rw [e] at hp; cases hp
+
+open C14HL in
+/-- **the saved bytes are always 13**: after any history every guard still belongs to its target and holds 13 original and
+    13 jump bytes, so no later `Unpatch`/`Restore` can write beyond the entry jump. -/
+theorem hist_guards (L : Layout) (hL : LOK L) (h : HState) (hG : GOK L h) (ops : List HOp) : GOK L (hrun L h ops) :=
+  (hrun_rel L hL ops h hG).2
+
+/-- non-vacuity: two targets 32 bytes apart in a text page, a third in separately mapped code; the empty initial
+    state; a history that patches all three, applies them, loses the third's memory and calls `UnpatchAll` -/
+example : ∃ (L : Layout) (h : HState) (ops : List HOp), C14HL.LOK L ∧ C14HL.GOK L h ∧ ops.length = 8 :=
+  ⟨{ org := fun i => if i = 0 then 0x401fc0#64 else if i = 1 then 0x401fe0#64 else 0x7f0000000000#64, fsz := fun _ => 64,
+     to := 0xc000001000#64 },
+   { m := { mem := fun _ => 0xcc#8, perm := fun _ => some RX }, slots := fun _ => none, table := [] },
+   [.patch 0, .apply 0, .patch 1, .apply 1, .patch 2, .apply 2, .unmap 0x7f0000000000#64, .unpatchAll],
+   by
+     intro i
+     by_cases h0 : i = 0
+     · subst h0; exact ⟨by unfold C14L.NoWrap; decide, 0x401000#64, by decide⟩
+     · by_cases h1 : i = 1
+       · subst h1; exact ⟨by unfold C14L.NoWrap; decide, 0x401000#64, by decide⟩
+       · simp only [h0, h1, if_false]; exact ⟨by unfold C14L.NoWrap; decide, 0x7f0000000000#64, by decide⟩,
+   (fun _ _ hs => by simp at hs), rfl⟩
 
 end C14
